@@ -100,7 +100,7 @@ theorem wsAllLeafX (S : WStable P) : LeafX (WsAll P) where
   emit := fun o => by ws_same
   emitRep := fun c i a b d => by unfold emitRep; ws_same
   emitEv := fun w t p x => by unfold emitEv; ws_same
-  setK := fun k => by unfold setK; ws_same
+  runK := fun f _ => by apply wsAll_same; intro s; rfl
   setStatus := fun u st => wsAll_modW _ _ (fun w h => S.status w st h)
   trySetNp := wsAll_trySetNp S
   spawnAdopt := wsAll_spawnAdopt S
